@@ -49,6 +49,9 @@ type MetaCfg struct {
 	// RelBlanks: the relation lists are written with items that expand to nothing (unset variables) in between;
 	// the relations the package states are the remaining items, in order.
 	RelBlanks bool `json:"rel_blanks,omitempty"`
+	// RelInOverride: the relation lists are configured in the override block of the format being built (the base
+	// settings carry decoys), incl. deb.breaks / deb.predepends / ipk.predepends inside it.
+	RelInOverride bool `json:"rel_in_override,omitempty"`
 }
 
 type RelItem struct {
